@@ -2,7 +2,7 @@
 //@ crate: aquavm-air
 //@ attach: air/src/execution_step/instructions/call/prev_result_handler.rs
 //@ functions: handle_prev_state (RequestSentBy arms; Executed/Failed arms with an unresolved argument hash); StateDescriptor::{executed,not_ready,can_execute_now,cant_execute_now,maybe_set_prev_state,should_execute}; call_result_setter::handle_remote_call; ExecutionCtx::next_call_request_id; ExecutionCtx::make_subgraph_incomplete; TraceHandler::meet_call_end
-//@ stubs: std::hash::RandomState::new -> fixed keys; alloc::fmt::format -> empty String; std::thread::current/park -> assume(false), Thread::unpark -> no-op; tracing span/dispatcher -> disabled
+//@ stubs: <u32 as ToString>::to_string -> assert(false) in the foreign-request harness (building the call-result key is the first step of the forbidden lookup); std::hash::RandomState::new -> fixed keys; alloc::fmt::format -> empty String; std::thread::current/park -> assume(false), Thread::unpark -> no-op; tracing span/dispatcher -> disabled
 //@ assumes: PARTIAL ExecutionCtx (field projection): only next_peer_pks, call_results (empty map), run_parameters (current peer "me"), last_call_request_id and the completeness flag are initialised; every other field is unconstrained memory that the kernels under test never read (a read would surface as a failed check, not as a pass)
 //@ assumes: peers from the palette {me, other}; call ids one decimal digit (to_string of a u32 is a division loop); output = none
 //@ decides: C05/C07: a pending request of this peer with no result yet is re-emitted unchanged and NOT executed again; a request by another peer is executed only if the call is addressed to this peer, otherwise re-emitted unchanged with the subgraph marked incomplete
@@ -14,7 +14,7 @@
 //@ harness: name=c19_handle_remote_call props=C19 cap=900 cost=30 sym="target peer chosen from {other, third}; next_peer_pks initially empty or holding one entry" bound="-"
 //@ harness: name=c06_call_request_ids_increase props=C06 cap=300 cost=10 sym="last_call_request_id: any u32 < u32::MAX - 1" bound="two consecutive ids"
 //@ harness: name=c01_executed_state_with_unresolved_args props=C01 panicfree=1 cap=900 cost=60 sym="Executed(Scalar|Stream|Unused) chosen symbolically; any generation" bound="argument hash = None"
-//@ harness: name=c06_foreign_request_never_takes_local_result props=C06,C05 cap=1800 cost=300 sym="request of ANOTHER peer carrying call id 5; call addressed to me / other; a host result is waiting under key 5" bound="one entry in call_results"
+//@ harness: name=c06_foreign_request_never_takes_local_result props=C06,C05 cap=1800 cost=300 sym="request of ANOTHER peer carrying any one-digit call id; call addressed to me / other" bound="the call-result lookup itself is the forbidden step"
 //@ harness: name=c05_leaf_vacuity props=C05 expect=fail cap=1800 cost=200 sym="as decision table" bound="same"
 
 use super::*;
@@ -36,7 +36,7 @@ fn partial_ctx(me: &str, last_id: u32) -> MaybeUninit<ExecutionCtx<'static>> {
         addr_of_mut!((*p).call_results).write(<_>::default());
         addr_of_mut!((*p).run_parameters).write(RcRunParameters {
             init_peer_id: "i".into(),
-            current_peer_id: Rc::new(me.to_string()),
+            current_peer_id: Rc::new(String::from(me)),
             salt: "".into(),
             timestamp: 0,
             ttl: 0,
@@ -49,9 +49,9 @@ fn partial_ctx(me: &str, last_id: u32) -> MaybeUninit<ExecutionCtx<'static>> {
 
 fn tetraplet_for(peer: &str) -> RcSecurityTetraplet {
     Rc::new(crate::SecurityTetraplet {
-        peer_pk: peer.to_string(),
-        service_id: "s".to_string(),
-        function_name: "f".to_string(),
+        peer_pk: String::from(peer),
+        service_id: String::from("s"),
+        function_name: String::from("f"),
         lens: String::new(),
     })
 }
@@ -65,7 +65,7 @@ fn decision_body(twin: bool) {
     let id: u32 = kani::any();
     kani::assume(id <= 9);
     let target_me: bool = kani::any();
-    let sender = Rc::new(if sender_me { "me" } else { "other" }.to_string());
+    let sender = Rc::new(String::from(if sender_me { "me" } else { "other" }));
     let state = if with_id {
         CallResult::sent_peer_id_with_call_id(sender, id)
     } else {
@@ -119,9 +119,19 @@ fn c05_leaf_vacuity() {
 }
 
 /// A host result stored under a call id belongs to the call THIS peer requested under that id.  A request
-/// state written by another peer (ids are per peer, so they collide) must never consume it.
+/// state written by another peer (ids are per peer, so they collide) must never even look at this peer's
+/// call results: the lookup is the forbidden step (stubbed to a failing check; a real hashbrown lookup on a
+/// filled map does not finish under CBMC).
+fn call_id_to_string_stub<T: std::fmt::Display + ?Sized>(_id: &T) -> String {
+    // the only u32 -> String conversion in handle_prev_state is the call-result key of the own-request arm
+    kani::assert(false, "C06: a request recorded by another peer must not consume (or look up) a result of this peer's host");
+    kani::assume(false);
+    String::new()
+}
+
 #[kani::proof]
 #[kani::unwind(12)]
+#[kani::stub(<u32 as std::string::ToString>::to_string, call_id_to_string_stub)]
 #[kani::stub(std::hash::RandomState::new, random_state_stub)]
 #[kani::stub(alloc::fmt::format, fmt_stub)]
 #[kani::stub(std::thread::current::current, thread_current_stub)]
@@ -130,21 +140,15 @@ fn c05_leaf_vacuity() {
 fn c06_foreign_request_never_takes_local_result() {
     let mut u = partial_ctx("me", 7);
     let ctx = unsafe { &mut *u.as_mut_ptr() };
-    ctx.call_results.insert(
-        "5".to_string(),
-        air_interpreter_interface::CallServiceResult {
-            ret_code: 0,
-            result: String::new(),
-        },
-    );
     let mut trace = TraceHandler::default();
     let target_me: bool = kani::any();
-    let state = CallResult::sent_peer_id_with_call_id(Rc::new("other".to_string()), 5);
+    let id: u32 = kani::any();
+    kani::assume(id <= 9);
+    let state = CallResult::sent_peer_id_with_call_id(Rc::new(String::from("other")), id);
     let met = MetCallResult::new(state, 0.into(), ValueSource::CurrentData);
     let tetraplet = tetraplet_for(if target_me { "me" } else { "other" });
     let hash: Rc<str> = "h".into();
     let r = handle_prev_state(met, &tetraplet, Some(&hash), &CallOutputValue::None, ctx, &mut trace);
-    kani::assert(ctx.call_results.len() == 1, "C06: a result supplied under an id is applied to the call that requested it and no other");
     kani::assert(matches!(&r, Ok(d) if d.should_execute == target_me && d.prev_state.is_some()), "C05: a foreign request is only (re)executed where addressed");
     kani::assert(trace.as_result_trace().len() == 0, "C05: no result recorded at a foreign request");
     kani::cover!(target_me, "addressed to me");
@@ -166,11 +170,11 @@ fn c19_handle_remote_call() {
     let mut trace = TraceHandler::default();
     let had_one: bool = kani::any();
     if had_one {
-        ctx.next_peer_pks.push("zero".to_string());
+        ctx.next_peer_pks.push(String::from("zero"));
     }
     let pick: bool = kani::any();
     let target = if pick { "other" } else { "third" };
-    call_result_setter::handle_remote_call(target.to_string(), ctx, &mut trace);
+    call_result_setter::handle_remote_call(String::from(target), ctx, &mut trace);
     let n = ctx.next_peer_pks.len();
     kani::assert(n == had_one as usize + 1, "C19: exactly one next peer added");
     kani::assert(ctx.next_peer_pks[n - 1] == target, "C19: the next peer is the call's target");
